@@ -1,5 +1,7 @@
 package verifsim
 
+import "time"
+
 // A lock-free-for-the-race-detector event log for harness history checks: entries are
 // written by //go:norace code into a fixed array while race synchronisation handling is
 // off, so logging neither adds happens-before edges between esbuild's goroutines nor
@@ -15,6 +17,7 @@ type Event struct {
 	A, B int
 	S    string
 	T    string
+	At   int64 // simulated (bubble) time in nanoseconds
 }
 
 //go:norace
@@ -25,10 +28,11 @@ func LogEvent(kind string, a, b int, s1, s2 string) int {
 	}
 	raceDisable()
 	t := s.current()
+	at := time.Now().UnixNano()
 	s.mu.Lock()
 	n := s.nevents
 	if n < maxEvents {
-		s.events[n] = Event{Seq: s.Steps, N: n, Task: t.id, Kind: kind, A: a, B: b, S: s1, T: s2}
+		s.events[n] = Event{Seq: s.Steps, N: n, Task: t.id, Kind: kind, A: a, B: b, S: s1, T: s2, At: at}
 		s.nevents++
 	}
 	s.mu.Unlock()
@@ -45,7 +49,7 @@ func (s *Sim) Events() []Event {
 	out := make([]Event, s.nevents)
 	for i := 0; i < s.nevents; i++ {
 		e := s.events[i]
-		out[i] = Event{Seq: e.Seq, N: e.N, Task: e.Task, Kind: cloneStr(e.Kind), A: e.A, B: e.B, S: cloneStr(e.S), T: cloneStr(e.T)}
+		out[i] = Event{Seq: e.Seq, N: e.N, Task: e.Task, Kind: cloneStr(e.Kind), A: e.A, B: e.B, S: cloneStr(e.S), T: cloneStr(e.T), At: e.At}
 	}
 	return out
 }
